@@ -75,6 +75,41 @@ pub fn boundary_ints() -> Vec<Vec<u8>> {
     out
 }
 
+/// values around every byte-length boundary of inline atoms: sums, differences and products of a few of them carry
+/// into a longer (or shrink to a shorter) encoding in the middle of an operand list
+pub fn carry_values() -> Vec<Vec<u8>> {
+    let v: Vec<i128> = vec![0, 1, 0x7f, 0x80, 0xff, 0x100, 0x7fff, 0x8000, 0xfff0, 0xffff, 0x10000, 0x7f_ffff, 0x80_0000, 0xff_ffff, 0x100_0000, 0x3ff_ffff, -1, -0x80, -0x8000];
+    v.into_iter().map(encode_int).collect()
+}
+
+/// every operand list of length 3 (and a deterministic quarter of those of length 4) over `carry_values`,
+/// split into `nblocks` blocks; returns the lists of block `blk`
+pub fn carry_lists(blk: usize, nblocks: usize) -> Vec<Vec<Vec<u8>>> {
+    let vals = carry_values();
+    let n = vals.len();
+    let mut out = Vec::new();
+    let mut k = 0usize;
+    for a in 0..n {
+        for b in 0..n {
+            for c in 0..n {
+                k += 1;
+                if k % nblocks == blk {
+                    out.push(vec![vals[a].clone(), vals[b].clone(), vals[c].clone()]);
+                }
+                if (a * 31 + b * 7 + c) % 8 == 0 {
+                    for d in 0..n {
+                        k += 1;
+                        if k % nblocks == blk && (a + b + c + d) % 2 == 0 {
+                            out.push(vec![vals[a].clone(), vals[b].clone(), vals[c].clone(), vals[d].clone()]);
+                        }
+                    }
+                }
+            }
+        }
+    }
+    out
+}
+
 pub fn gen_bytes_atom(r: &mut Rng, max_len: usize) -> Vec<u8> {
     let mut len = *r.pick(LEN_CLASSES);
     if len > max_len {
@@ -110,6 +145,7 @@ pub enum Shape {
     WideList,
     Repeats,
     SingleAtom,
+    StackEcho,
 }
 
 pub const SHAPES: &[Shape] = &[
@@ -123,6 +159,8 @@ pub const SHAPES: &[Shape] = &[
     Shape::Repeats,
     Shape::Repeats,
     Shape::SingleAtom,
+    Shape::StackEcho,
+    Shape::StackEcho,
 ];
 
 /// generate a tree/DAG; `size` bounds the number of forest nodes
@@ -189,6 +227,48 @@ pub fn gen_tree(r: &mut Rng, f: &mut Forest, shape: Shape, size: usize, max_atom
                 }
             }
             f.list(&items)
+        }
+        Shape::StackEcho => {
+            // Proper lists in which some elements equal the reversed list of (a tail of) everything parsed before them.
+            // While a back-reference decoder reads such an element, it is exactly (a tail of) the decoder's parse stack,
+            // which is what the compressing serializers refer to with the paths 1, 3, 7, ...
+            fn build(r: &mut Rng, f: &mut Forest, stack: &mut Vec<Id>, depth: u32, budget: &mut usize, alphabet: &[Id]) -> Id {
+                let n = r.range(2, 7) as usize;
+                let base = stack.len();
+                let mut items: Vec<Id> = Vec::new();
+                for _ in 0..n {
+                    if *budget == 0 {
+                        break;
+                    }
+                    *budget -= 1;
+                    let it = match r.below(8) {
+                        0..=2 if !stack.is_empty() => {
+                            // the stack as a list has its most recent entry first; a tail drops the most recent ones
+                            let keep = stack.len() - r.usize(stack.len().min(3));
+                            let rev: Vec<Id> = stack[..keep].iter().rev().cloned().collect();
+                            f.list(&rev)
+                        }
+                        3 if depth < 3 => build(r, f, stack, depth + 1, budget, alphabet),
+                        4 if !items.is_empty() => *r.pick(&items),
+                        _ => *r.pick(alphabet),
+                    };
+                    items.push(it);
+                    stack.push(it);
+                }
+                stack.truncate(base);
+                f.list(&items)
+            }
+            let mut alphabet: Vec<Id> = Vec::new();
+            for b in [&[5u8][..], b"ab", &[0x11; 32], b""] {
+                alphabet.push(f.atom(b));
+            }
+            for _ in 0..2 {
+                let b = gen_atom(r, max_atom.min(48));
+                alphabet.push(f.atom(&b));
+            }
+            let mut budget = size.clamp(3, 200);
+            let mut stack = Vec::new();
+            build(r, f, &mut stack, 0, &mut budget, &alphabet)
         }
         Shape::Random | Shape::Repeats => {
             // bottom-up random DAG/tree: a pool of nodes, combine random picks
